@@ -14,6 +14,33 @@ TV = 'translation_validation'
 
 # id -> (category, text, design_ref, level_note, technique)
 CLAIMS = {
+    'C07': (MC,
+            'MC_C07 models the six copy operations on the abstract heap (deep kinds duplicate every reachable '
+            'object and remap references, shallow kinds add one top-level object holding the same values) followed '
+            'by one edit of an object of the copy; TLC checks DeepFaithful, DeepDisjoint, ShallowFresh, '
+            'ShallowValuesShared, OriginalIsSnapshot and the action property OriginalUnaffected (projection and '
+            'built graph of the original unchanged by every edit step). Every (original, copy kind, edit) state is '
+            'replayed on the real library: projection of the copy before and after the edit, number of mutable '
+            'objects shared by identity, freshness of per-Buildable cells (argument dict, tag sets, history lists), '
+            'and the original\'s projection and build result after the edit. Random larger configurations get '
+            'several edits on the copy.',
+            'DESIGN.md §5 C07',
+            'Trusted: TLC, harness projection. Tuples are immutable and exempt from identity disjointness (CPython '
+            'deepcopy returns the same tuple when nothing in it changes). History entries are shared by design; '
+            'history lists must be distinct.',
+            'TLA+ copy/edit machine checked by TLC; per-state replay into fiddle with identity-level observation'),
+    'C17': (MC,
+            'FdlFrame (MC_C17) has one CallApi action per entry point whose only clause is UNCHANGED heap, checked '
+            'as an action property; TLC supplies every configuration shape in the bound (shared nodes, Partials, '
+            'tags, tagged arguments without value). For every generated heap each of 66 call forms of the public '
+            'read-only / copy-returning APIs is run on a fresh realisation and the projection (callables, '
+            'arguments, tags, sharing) and the identity of every object are compared before and after; APIs that '
+            'raise on a shape are still held to the frame condition. A sample of recorded events and every '
+            'modifying event is judged by Trace_C17.',
+            'DESIGN.md §5 C17',
+            'Trusted: TLC, harness projection. The specification is trivial by design (frame condition); coverage '
+            'comes from the exhaustively generated shapes x the entry-point table.',
+            'TLA+ frame specification; exhaustive shapes from TLC x API table replayed on fiddle'),
     'C08': (MC,
             'FdlPaths defines AllPaths / PathsTo / Follow on the heap machine and one acceptance predicate per '
             'observation (BasicOK, MemoOK, ByIdOK, rebuild isomorphism); TLC checks on every complete heap in the '
